@@ -68,6 +68,29 @@ CLAIMED["C18"] = dict(
   technique="Coq proof (case analysis over decidable equalities; sorting/dedup lemmas) + checked correspondence incl. exhaustive quotient",
   ref="5.8")
 
+_BISYNC_NOTE = ("Trusted as C17, plus: the real `copia bisync` binary is driven with HOME redirected; trees are maps path -> bytes of regular files "
+  "(no symlinks, modes, mtimes, file/directory clashes); copy_atomic = read the source now, replace the destination; BLAKE3 quantified "
+  "(premise: no collision between the two files of one path, injective on the contents in play over a history); nothing is assumed about the path order. "
+  "Every run-level theorem carries the explicit premise Fresh: for each both-changed path of the plan the conflict name is absent on both sides or already "
+  "holds the loser on both sides (the repeated conflict), and distinct both-changed paths have distinct conflict names. Outside it nothing is claimed; "
+  "a conflict name live with other content is the genuine loss F5 (edited conflict copy overwritten), exhibited by the closed witness theorem "
+  "C02_name_clash_loses_version; a name live on one side only (what a crash in the middle of a conflict leaves) is conservatively excluded too.")
+CLAIMED["C02"] = dict(
+  text="Coq theorems, closed under the global context, over any path/digest types, any hash, digest comparison, conflict-name function and path order, trees of any size: one run - every version present on either side when the run starts is afterwards on BOTH sides (at its path, or at the conflict name the run generated for it) unless the record holds its digest for that path and the other side's entry differs (C02_run_no_loss, a corollary of the per-path characterisation of the whole run proved by a loop invariant over the plan); the record is truthful - after every completed run it is exactly the tree both sides hold, user writes/deletes leave it alone (C02_arch_truthful) - and along ANY finite history of writes, deletes, runs and archive faults from arbitrary initial trees (induction over the history) a trusted record is the tree both sides held at the end of the most recent run with only user operations since (C02_arch_is_previous_run), so at EVERY run of every history a version disappears only if both sides held it at that path at the end of the previous completed run and the other side has since changed or deleted it (C02_history_no_loss). Covers delete-on-both-sides-then-recreate (the repaired pruning of the record) and repeated conflicts with the same loser. Tie: real `copia bisync` on generated and directed histories; both trees, the archive, exit class and the dry-run plan compared with the extracted model after every operation; the no-loss oracle is evaluated on the implementation's own snapshots.",
+  note=_BISYNC_NOTE,
+  technique="Coq proof (invariant of the apply loop by induction over the plan; induction over arbitrary histories) + checked correspondence against the real binary",
+  ref="5.12")
+CLAIMED["C06"] = dict(
+  text="Coq theorems, closed under the global context, quantified as C02: the run never ends in an I/O error (C06_run_no_io_error); central lemma C06_run_per_path - after the run EVERY path holds, on both sides and in the record, the loser if it is a conflict name generated by this run and otherwise the explicit per-path result (a function of the two contents and the recorded digest alone, C06_per_path_result_by_action); corollaries: both trees are equal (C06_run_converges), the record is exactly the tree with no extra and no missing entry (C06_run_records_tree), an immediate second run plans nothing, exits 0 and returns the same state (C06_run_idempotent), the exit status is non-zero exactly when the plan contains a both-changed conflict (C06_exit_status_spec), a divergent edit ends with the greater-digest version at the path and the other at the conflict name on both sides (C06_conflict_resolution), and naming the directories in the other order yields the exchanged trees, the same record and exit status (C06_swap_symmetric, premise: the digest comparison is that of a total order on different digests); the plan is a duplicate-free listing of the union of the keys for any order (C06_plan_keys_spec). Tie: the C02 runs; oracles: trees equal, archive JSON = tree entry for entry, an immediate second dry run prints 0 actions, every 4th history re-executed with the arguments swapped, mtimes randomised independently of contents.",
+  note=_BISYNC_NOTE + " mtime independence holds by construction of the model (trees carry no mtimes; exercised by the tie only). pair_identity (archive file name) is not modelled.",
+  technique="Coq proof (invariant of the apply loop by induction over the plan, per-path characterisation, corollaries) + checked correspondence against the real binary",
+  ref="5.13")
+CLAIMED["C07"] = dict(
+  text="Coq theorems, closed under the global context: for EVERY parser, Archive::load yields entries exactly when the file could be read and parsed to a record with the current format version (regenerated constant) and the expected pair identity (C07_load_checks); with no trusted record the plan contains no delete for any two scans (C07_untrusted_plan_no_delete); a run without a trusted record keeps every version present before on BOTH sides (at its path or at the generated conflict name), every path of either side exists on both sides afterwards and the trees are equal (C07_untrusted_run_preserves_all); the same inside any history: after a fault at any point followed by any user writes/deletes the next run preserves everything, whatever was recorded or deleted before (C07_fault_then_history_no_loss); C02's history theorem quantifies over histories with faults. Tie: the C02 histories with archive faults of 8 kinds injected before runs of the real binary; oracles: SAFE no-base banner, no Delete* in the dry-run plan, no path removed, every version on both sides; states compared with the extracted model.",
+  note=_BISYNC_NOTE + " Partial: serde_json is not modelled (quantified parser); that every damaged byte string is rejected rests on the executed fault kinds, not on a theorem, and the exhaustive every-truncation-point enumeration against Archive::load of DESIGN 5.14(a) is not built.",
+  technique="Coq proof (case analysis of load for an arbitrary parser; specialisation of the bisync run invariant to an untrusted record; induction over histories) + checked correspondence against the real binary",
+  ref="5.14")
+
 NA_REASON = "check not built yet in this session; see DESIGN.md section 5 for the planned model and theorems"
 
 
